@@ -13,7 +13,7 @@ From Coq Require Import String.
 From ZV Require Import Lib.Base Model.Web Proofs.Web Generated.WebPages Generated.WebSinks.
 From ZV Require Import Model.WebResp Proofs.WebResp Generated.WebRoutes.
 From ZV Require Import Model.WebJs Proofs.WebJs Model.WebUrl Proofs.WebUrl.
-From ZV Require Import Model.WebFuncs Proofs.WebFuncs Generated.WebFuncs.
+From ZV Require Import Model.WebFuncs Proofs.WebFuncs Generated.WebFuncs Model.WebFuncsAst Generated.WebFuncBodies.
 Open Scope N_scope.
 
 (** (i-a) For every line match whose fragments are sorted, non-overlapping and inside the line — whatever lies in the
@@ -279,6 +279,37 @@ Theorem C36_limit_post_spec : forall limit post, (0 <= limit)%Z ->
      ((limit <= blen post)%Z /\ exists p rest, post = p ++ rest /\ blen p = limit /\ r = p ++ skipped (blen rest)))%list.
 Proof. exact limit_post_spec. Qed.
 Print Assumptions C36_limit_post_spec.
+
+(** (v-e) the hand model against the SOURCE: Generated/WebFuncBodies.v holds the bodies of the registered functions translated
+    from web/server.go into the Go subset of Model/WebFuncsAst.v (interpreter with checked index/slice, wrapping integers,
+    short-circuit && / ||). By computation: the table lists exactly the registered functions, and every body the translator could
+    translate agrees with [apply_func] — same value, or both panic — on a bounded-exhaustive argument set: all strings of length
+    <= 5 over {A, \n, 0x80, 0xC3} with limits -1..4, the two-run strings a^n b^m around every literal limit of the call sites,
+    boundary integers. A body outside the subset passes (the direct-call correspondence is then its only tie; the check's notes
+    name those functions). PARTIAL: bounded comparison, not a proof of equivalence. *)
+Theorem C36_func_bodies_agree_partial :
+  forallb (body_ok func_calls) func_bodies = true /\ map gf_name func_bodies = map fd_name funcmap.
+Proof. vm_compute. split; reflexivity. Qed.
+Print Assumptions C36_func_bodies_agree_partial.
+
+Example C36_nonvacuous_func_bodies :
+  (* LimitPre as it is, and "UTF-8 aware" with an unbounded forward scan: the comparison finds the difference *)
+  let cur := [SIf (EBin BLt (ELen (EVar "pre")) (EVar "limit")) [SReturn (EVar "pre")] [];
+              SReturn (ESprintf (str "...(%d bytes skipped)...%s")
+                [EBin BSub (ELen (EVar "pre")) (EVar "limit");
+                 ESlice (EVar "pre") (Some (EBin BSub (ELen (EVar "pre")) (EVar "limit"))) None])] in
+  let scan := [SIf (EBin BLt (ELen (EVar "pre")) (EVar "limit")) [SReturn (EVar "pre")] [];
+               SSet "cut" (EBin BSub (ELen (EVar "pre")) (EVar "limit"));
+               SFor (ENot (ECall "unicode/utf8.RuneStart" [EIndex (EVar "pre") (EVar "cut")])) [SSet "cut" (EBin BAdd (EVar "cut") (EInt 1))];
+               SReturn (ESprintf (str "...(%d bytes skipped)...%s") [EVar "cut"; ESlice (EVar "pre") (Some (EVar "cut")) None])] in
+  let g b := {| gf_name := "LimitPre"; gf_params := ["limit"; "pre"]; gf_body := Some b; gf_why := "" |} in
+  body_ok func_calls (g cur) = true /\
+  body_ok func_calls (g scan) = false /\
+  run_body 4000 ["limit"; "pre"] scan [VInt 100; VStr (repeat 128 100)] = Panic 2 /\
+  run_body 4000 ["limit"; "pre"] scan [VInt 100; VStr (repeat 65 100)] = Ok (VStr (str "...(0 bytes skipped)..." ++ repeat 65 100)%list) /\
+  (8000 <=? N.of_nat (length (samples func_calls "LimitPre")))%N = true /\
+  body_ok func_calls {| gf_name := "Shorten"; gf_params := ["s"]; gf_body := None; gf_why := "" |} = false.
+Proof. vm_compute. repeat split; reflexivity. Qed.
 
 Example C36_nonvacuous_funcs :
   (* 100 UTF-8 continuation bytes in front of the match: the excerpt starts inside the run, no lead byte anywhere *)
